@@ -4,7 +4,7 @@
    of objects and FIFOs.  The ring-layer model SV.SRMring (circular buffers, live counts, shutdown) is
    what tools/checks/c23.py runs in lockstep with the real code.  Statements only. *)
 From Coq Require Import List Arith Permutation.
-From SV Require SRM SRMorder Proofs_C23.
+From SV Require SRM SRMorder Proofs_C23 SRMring RingRefine.
 Import ListNotations.
 
 (* never lost, never duplicated: what has been popped plus what is still queued is a permutation of
@@ -29,3 +29,18 @@ Proof. exact SRM.srm_mq_sem_consistent. Qed.
 Theorem srm_posting_order : forall ops q popped, forallb SRMorder.only_back ops = true ->
   SRM.run (SRM.mq0 1) ops = Some (q, popped) -> exists waiting, SRM.pushed ops = popped ++ waiting.
 Proof. exact SRMorder.srm_posting_order. Qed.
+
+(* refinement: the ring-layer model (head / tail / NULL-slot circular buffers; the one run in lockstep with the C) matches the
+   deque-layer model step for step on every run the deque model enables, while no circular buffer is pushed beyond its
+   capacity (the side condition the lockstep run evaluates on every state) *)
+Theorem srm_ring_refines_deque : forall ops rq dq dq' ps, RingRefine.R rq dq -> RingRefine.room_along rq ops ->
+  SRM.run dq ops = Some (dq', ps) ->
+  snd (RingRefine.rrun rq ops) = ps /\ RingRefine.R (fst (RingRefine.rrun rq ops)) dq'.
+Proof. exact RingRefine.ring_run_refines. Qed.
+
+(* ... hence no lost wake-up at the ring layer: never (object queued and process waiting), with the C's own emptiness test *)
+Theorem srm_ring_no_lost_wakeup : forall nobj nproc ops dq ps, 0 < nobj -> 0 < nproc ->
+  RingRefine.room_along (SRMring.mq_new nobj nproc) ops -> SRM.run (SRM.mq0 nproc) ops = Some (dq, ps) ->
+  SRMring.ring_empty (SRMring.oq (fst (RingRefine.rrun (SRMring.mq_new nobj nproc) ops))) = true \/
+  SRMring.ring_empty (SRMring.pq (fst (RingRefine.rrun (SRMring.mq_new nobj nproc) ops))) = true.
+Proof. exact RingRefine.ring_no_lost_wakeup. Qed.
